@@ -1907,6 +1907,28 @@ pub fn f19() -> Vec<Case> {
     // at run time); on BOOL it evaluates
     out.push(raw("F19", "ampersand:integer-operands", "PROGRAM Main\nVAR i : INT := 3; b : BOOL; END_VAR\n    b := i & i;\nEND_PROGRAM\n", 2));
     out.push(raw("F19", "ampersand:bool-operands", "PROGRAM Main\nVAR c : BOOL := TRUE; d : BOOL; e : BOOL; END_VAR\n    d := c & TRUE;\n    e := c & NOT d;\nEND_PROGRAM\n", 2));
+    // initial values of FUNCTION locals written as untyped literals take the declared type (the
+    // reference sees the typed value, the text carries the untyped spelling)
+    for (t, v, spell, add) in [(Ty::Int, int(Ty::Int, 32767), "32767", 1i128), (Ty::SInt, int(Ty::SInt, 100), "100", 27), (Ty::UInt, int(Ty::UInt, 65535), "65535", 0), (Ty::Int, int(Ty::Int, 5), "5", 1)] {
+        let f = Func {
+            name: "Loc".into(),
+            ret: Some(t),
+            inputs: vec![Decl::new("a", t)],
+            locals: vec![Decl::init("t", v)],
+            body: vec![assign("t", bin(Op::Add, var("t"), var("a"))), assign("Loc", var("t"))],
+            ..Default::default()
+        };
+        let mut p = prog(vec![Decl::new("i", t), Decl::init("k", int(t, add))], vec![assign("i", E::Call("Loc".into(), vec![Arg::Pos(var("k"))]))]);
+        p.funcs.push(f);
+        let typed = super::ast::print(&p);
+        let needle = format!(":= {};", v.typed_lit());
+        if typed.matches(&needle).count() != 1 {
+            continue;
+        }
+        let mut c = case("F19", format!("function-local:initial-value-untyped-literal:{}", t.name()), p, 2, true);
+        c.raw = Some(typed.replace(&needle, &format!(":= {spell};")));
+        out.push(c);
+    }
     out.push(raw(
         "F19",
         "en-false:then-call-through-using",
